@@ -1,6 +1,6 @@
 // Family c06: trie/trie.go Update/Delete/UpdateBatch/Get/Hash and trie/iterator.go
 // (in-memory trie) vs coq/Trie/Ops.v + coq/Trie/Hash.v (root hash through the Coq
-// Keccak) + coq/Trie/Iter.v.
+// Keccak) + coq/Trie/Iter.v + coq/Trie/Stack.v (trie/stacktrie.go).
 package main
 
 import (
@@ -57,7 +57,7 @@ func run(c Sx) Result {
 	var obs SL
 	var fails []string
 	res := Result{}
-	nbatch, ndel, nget, niter := 0, 0, 0, 0
+	nbatch, ndel, nget, niter, nstack := 0, 0, 0, 0, 0
 	for opi, o := range ops {
 		l := AsList(o)
 		switch AsInt(l[0]) {
@@ -118,6 +118,70 @@ func run(c Sx) Result {
 			if !bytes.Equal(v, ref[string(k)]) {
 				fails = append(fails, fmt.Sprintf("Get(%x)=%x, reference map has %x", k, v, ref[string(k)]))
 			}
+		case 4:
+			// a fresh StackTrie fed with the given pairs in order
+			kvs := AsList(l[1])
+			st := trie.NewStackTrie(nil)
+			var codes SL
+			panicked := false
+			allOK := true
+			sameLen := true
+			sref := map[string][]byte{}
+			var skeys []string
+			func() {
+				defer func() {
+					if r := recover(); r != nil {
+						panicked = true
+					}
+				}()
+				for _, kv := range kvs {
+					p := AsList(kv)
+					k, v := AsBytes(p[0]), AsBytes(p[1])
+					err := st.Update(k, v)
+					switch {
+					case err == nil:
+						codes = append(codes, I(0))
+						sref[string(k)] = v
+						skeys = append(skeys, string(k))
+						if len(k) != len(skeys[0]) {
+							sameLen = false
+						}
+					case len(v) == 0:
+						codes = append(codes, I(1))
+						allOK = false
+					default:
+						codes = append(codes, I(2))
+						allOK = false
+					}
+				}
+			}()
+			if panicked {
+				obs = append(obs, L(codes, L(I(-2), I(2))))
+				res.Tags = append(res.Tags, "stack-panic")
+				break
+			}
+			var sroot common.Hash
+			func() {
+				defer func() {
+					if r := recover(); r != nil {
+						panicked = true
+					}
+				}()
+				sroot = st.Hash()
+			}()
+			if panicked {
+				obs = append(obs, L(codes, L(I(-2), I(2))))
+				break
+			}
+			obs = append(obs, L(codes, B(sroot.Bytes())))
+			nstack++
+			// direct oracle: same root as the ordinary trie over the accepted pairs
+			if sameLen && len(skeys) > 0 {
+				if want := rootOf(sref, skeys); want != sroot {
+					fails = append(fails, fmt.Sprintf("op %d: stack trie root %x differs from trie root %x", opi, sroot, want))
+				}
+			}
+			_ = allOK
 		case 3:
 			// drain a key/value iterator over the whole trie
 			it := trie.NewIterator(t.MustNodeIterator(nil))
@@ -205,6 +269,9 @@ func run(c Sx) Result {
 	if niter > 0 {
 		res.Tags = append(res.Tags, "iterate")
 	}
+	if nstack > 0 {
+		res.Tags = append(res.Tags, "stackop")
+	}
 	_ = nget
 	res.NonTrivial = len(ops) >= 4 && (ndel > 0 || nbatch > 0) && len(ref) >= 1
 	return res
@@ -289,6 +356,53 @@ func exhaustive(n int, emit func(Sx)) {
 	}
 }
 
+// genStackOp: a list of pairs for a fresh StackTrie: mostly strictly ascending
+// equal-length keys; sometimes unsorted/duplicate keys, empty values, or keys of
+// different lengths (a key that extends an earlier one makes the Go code panic).
+func genStackOp(r *Rng) Sx {
+	n := 1 + r.Intn(12)
+	ks := r.Intn(3)
+	fixedLen := 1 + r.Intn(3)
+	seen := map[string]bool{}
+	var keys []string
+	for len(keys) < n {
+		var k []byte
+		switch ks {
+		case 1:
+			k = genKey(r, 1)
+		default:
+			k = make([]byte, fixedLen)
+			al := []byte{0x00, 0x01, 0x10, 0x11, 0x20, 0xf0, 0xff}
+			for i := range k {
+				k[i] = al[r.Intn(len(al))]
+			}
+			if r.Chance(1, 12) {
+				k = k[:1+r.Intn(len(k))] // different length
+			}
+		}
+		if seen[string(k)] && !r.Chance(1, 10) {
+			if len(seen) >= 40 {
+				break
+			}
+			continue
+		}
+		seen[string(k)] = true
+		keys = append(keys, string(k))
+	}
+	if !r.Chance(1, 8) {
+		sort.Strings(keys)
+	}
+	var kvs SL
+	for _, k := range keys {
+		v := genVal(r)
+		if len(v) == 0 && !r.Chance(1, 6) {
+			v = r.Bytes(1 + r.Intn(40))
+		}
+		kvs = append(kvs, L(B([]byte(k)), B(v)))
+	}
+	return L(I(4), kvs)
+}
+
 func gen(r *Rng, tier string, emit func(Sx)) {
 	n := 500
 	if tier == "thorough" {
@@ -358,6 +472,9 @@ func gen(r *Rng, tier string, emit func(Sx)) {
 			}
 		}
 		ops = append(ops, L(I(3)))
+		if r.Chance(1, 2) {
+			ops = append(ops, genStackOp(r))
+		}
 		emit(ops)
 	}
 }
@@ -365,7 +482,7 @@ func gen(r *Rng, tier string, emit func(Sx)) {
 func main() {
 	Main(Family{
 		ID:   "C06",
-		Rule: "random histories (1-30 ops) of Update/Delete (empty value)/UpdateBatch (1-40 entries, real goroutines; a third of the batches deletion-heavy; the model applies the per-nibble groups in a random order)/Get on an in-memory trie; keys 1-3 bytes over a 4-symbol alphabet (dense shared prefixes, keys that are prefixes of other keys), 1-2 bytes over a 7-symbol alphabet with 5 different first nibbles (wide root branch), or 32-byte keys sharing 28+ byte prefixes; values 1-40 bytes (embedded < 32 and hashed >= 32 node encodings); plus every put/delete sequence of length <= 2 (quick) / <= 4 and 1/8 of length 5 (thorough) over a 6-key universe. Root hash observed after every op, the full key/value iteration at random points and at the end of every random history. Non-trivial: >= 4 ops including a delete or a batch, non-empty final set; distinct = distinct case line.",
+		Rule: "random histories (1-30 ops) of Update/Delete (empty value)/UpdateBatch (1-40 entries, real goroutines; a third of the batches deletion-heavy; the model applies the per-nibble groups in a random order)/Get on an in-memory trie; keys 1-3 bytes over a 4-symbol alphabet (dense shared prefixes, keys that are prefixes of other keys), 1-2 bytes over a 7-symbol alphabet with 5 different first nibbles (wide root branch), or 32-byte keys sharing 28+ byte prefixes; values 1-40 bytes (embedded < 32 and hashed >= 32 node encodings); plus every put/delete sequence of length <= 2 (quick) / <= 4 and 1/8 of length 5 (thorough) over a 6-key universe. Root hash observed after every op, the full key/value iteration at random points and at the end of every random history; half of the random histories end with a fresh StackTrie fed 1-12 pairs (mostly strictly ascending equal-length keys; 1/8 unsorted, occasional duplicates, empty values and keys of different lengths, where the Go code returns errors or panics), per-Update result and Hash compared. Non-trivial: >= 4 ops including a delete or a batch, non-empty final set; distinct = distinct case line.",
 		Gen:  gen,
 		Run:  run,
 	})
